@@ -71,6 +71,9 @@ func (a *Analysis) isPureModuleFunc(fn *ssa.Function) bool {
 				if pureFuncs[sc.String()] || allocOnlyFuncs[sc.String()] {
 					continue
 				}
+				if localBuilderMethod(c) {
+					continue // writes into a strings.Builder / bytes.Buffer that is a local of this call
+				}
 				if !a.P.InModule(sc) && sc.Signature.Recv() != nil && pureMethodNames[sc.Name()] && !returnsError(sc.Signature) {
 					continue // getter of a dependency type (time.Time.Add, url.URL.String)
 				}
@@ -333,10 +336,28 @@ func (fc *FuncCtx) ap0(v ssa.Value) string {
 	case *ssa.FieldAddr:
 		return fc.AP(x.X) + "." + fieldName(x.X.Type(), x.Field)
 	case *ssa.Field:
+		// a field of the struct a module helper returns: named like a result of a tuple-returning helper
+		if c, idx, ok := callComponent(x); ok {
+			if ap := fc.inlinedResultAP(c, idx); ap != "" {
+				return ap
+			}
+			if ap := fc.pureResultAP(c, idx); ap != "" {
+				return ap
+			}
+		}
 		return fc.AP(x.X) + "." + fieldName(x.X.Type(), x.Field)
 	case *ssa.UnOp:
 		switch x.Op {
 		case token.MUL:
+			// a field of a result struct kept in a local: named like the result of a tuple-returning helper
+			if c, idx, ok := callComponent(x); ok && idx < 0 {
+				if ap := fc.inlinedResultAP(c, idx); ap != "" {
+					return ap
+				}
+				if ap := fc.pureResultAP(c, idx); ap != "" {
+					return ap
+				}
+			}
 			if al, ok := x.X.(*ssa.Alloc); ok {
 				if sv := fc.singleStore(al, x); sv != nil {
 					return fc.AP(sv)
@@ -376,6 +397,12 @@ func (fc *FuncCtx) ap0(v ssa.Value) string {
 	case *ssa.Lookup:
 		return fc.AP(x.X) + "[" + fc.AP(x.Index) + "]"
 	case *ssa.Slice:
+		// s[len(p):] of a string: the text after the prefix (the rules that rely on it also require HasPrefix(s, p))
+		if x.High == nil && x.Low != nil && isStringType(x.X.Type()) {
+			if la := lenArg(x.Low); la != nil && isStringType(la.Type()) {
+				return "strings.TrimPrefix(" + fc.AP(x.X) + "," + fc.AP(la) + ")"
+			}
+		}
 		if al, ok := x.X.(*ssa.Alloc); ok && al.Comment == "varargs" && x.Low == nil && x.High == nil {
 			// the argument list of a variadic call: render the stored elements in order
 			var parts []string
@@ -468,6 +495,15 @@ func (fc *FuncCtx) ap0(v ssa.Value) string {
 	case *ssa.Call:
 		// cmp.Or(a, b, ...): the first non-zero operand, the same value as the module's firstSet helper / the
 		// "if a == zero { a = b }" idiom
+		// the text of a local strings.Builder / bytes.Buffer written by straight-line WriteString calls is the
+		// concatenation of what was written
+		if parts := builderParts(x); len(parts) >= 1 {
+			s := fc.AP(parts[0])
+			for _, q := range parts[1:] {
+				s = "(" + s + "+" + fc.AP(q) + ")"
+			}
+			return s
+		}
 		if ops := cmpOrOperands(x); len(ops) >= 2 {
 			var parts []string
 			for _, o := range ops {
@@ -849,16 +885,19 @@ func (fc *FuncCtx) inlinedResultAP(c *ssa.Call, idx int) string {
 	if sc == nil || fc.A.Inline == nil || !fc.A.Inline(sc) || fc.depth >= fc.A.MaxDepth || len(sc.Blocks) == 0 {
 		return ""
 	}
-	if _, ok := sc.Signature.Results().At(idx).Type().Underlying().(*types.Pointer); !ok {
+	if ct := componentType(sc, idx); ct == nil {
+		return ""
+	} else if _, ok := ct.Underlying().(*types.Pointer); !ok {
 		return ""
 	}
 	sub := fc.inlineCtx(sc, c.Call.Args, c)
 	ap := ""
 	for _, ret := range sub.Returns() {
-		if idx >= len(ret.Results) {
+		rc := retComponent(ret, idx)
+		if rc == nil {
 			return ""
 		}
-		v := Resolve(ret.Results[idx])
+		v := Resolve(rc)
 		if isNilConst(v) {
 			continue
 		}
@@ -882,20 +921,37 @@ func (fc *FuncCtx) pureResultAP(c *ssa.Call, idx int) string {
 	if sc == nil || fc.depth >= fc.A.MaxDepth || len(sc.Blocks) == 0 || !fc.A.isPureModuleFunc(sc) {
 		return ""
 	}
-	ei := errIndex(sc)
-	if idx == ei {
+	hasErr, ei := false, 0
+	if idx >= 0 {
+		if e := errIndex(sc); e >= 0 {
+			hasErr, ei = true, e
+		}
+	} else if sc.Signature.Results().Len() == 1 {
+		// result struct: its error-typed field plays the role of the error result
+		if st, ok := sc.Signature.Results().At(0).Type().Underlying().(*types.Struct); ok {
+			for k := 0; k < st.NumFields(); k++ {
+				if types.TypeString(st.Field(k).Type(), nil) == "error" {
+					hasErr, ei = true, -k-1
+				}
+			}
+		}
+	}
+	if hasErr && idx == ei {
 		return ""
 	}
 	sub := fc.inlineCtx(sc, c.Call.Args, c)
 	ap := ""
 	for _, ret := range sub.Returns() {
-		if idx >= len(ret.Results) {
+		rc := retComponent(ret, idx)
+		if rc == nil {
 			return ""
 		}
-		if ei >= 0 && !isNilConst(Resolve(ret.Results[ei])) {
-			continue // failure return: the other results are not used by a caller that checks the error
+		if hasErr {
+			if ev := retComponent(ret, ei); ev != nil && !isNilConst(Resolve(ev)) {
+				continue // failure return: the other results are not used by a caller that checks the error
+			}
 		}
-		s := sub.AP(ret.Results[idx])
+		s := sub.AP(rc)
 		if sub.prefix == "" || strings.Contains(s, sub.prefix) {
 			return "" // depends on values local to the helper
 		}
@@ -931,4 +987,129 @@ func cmpOrOperands(c *ssa.Call) []ssa.Value {
 		return nil
 	}
 	return arrayLiteralElems(al)
+}
+
+// localBuilderMethod: a method call on a strings.Builder / bytes.Buffer that is a local variable of the calling function.
+func localBuilderMethod(c *ssa.CallCommon) bool {
+	sc := c.StaticCallee()
+	if sc == nil || sc.Signature.Recv() == nil || len(c.Args) == 0 {
+		return false
+	}
+	rt := types.TypeString(sc.Signature.Recv().Type(), nil)
+	if rt != "*strings.Builder" && rt != "*bytes.Buffer" {
+		return false
+	}
+	_, isLocal := c.Args[0].(*ssa.Alloc)
+	return isLocal
+}
+
+// builderParts: c is b.String() (or b.Bytes()) of a local strings.Builder / bytes.Buffer b all of whose other uses are
+// WriteString / Write / WriteByte / WriteRune calls in the same block before c, or in blocks that dominate it outside
+// any loop: the values written, in order. nil otherwise.
+func builderParts(c *ssa.Call) []ssa.Value {
+	sc := c.Call.StaticCallee()
+	if sc == nil || len(c.Call.Args) != 1 {
+		return nil
+	}
+	switch sc.String() {
+	case "(*strings.Builder).String", "(*bytes.Buffer).String":
+	default:
+		return nil
+	}
+	al, ok := c.Call.Args[0].(*ssa.Alloc)
+	if !ok || al.Referrers() == nil {
+		return nil
+	}
+	type wr struct {
+		call *ssa.Call
+		v    ssa.Value
+	}
+	var ws []wr
+	for _, rf := range *al.Referrers() {
+		switch u := rf.(type) {
+		case *ssa.Call:
+			if u == c {
+				continue
+			}
+			usc := u.Call.StaticCallee()
+			if usc == nil || len(u.Call.Args) < 1 || u.Call.Args[0] != ssa.Value(al) {
+				return nil
+			}
+			switch usc.Name() {
+			case "WriteString", "Write":
+				if len(u.Call.Args) != 2 {
+					return nil
+				}
+				ws = append(ws, wr{u, u.Call.Args[1]})
+			case "Grow", "Len":
+			default:
+				return nil
+			}
+		case *ssa.DebugRef:
+		case *ssa.Store:
+			// zero initialisation of the local
+			if u.Addr != ssa.Value(al) {
+				return nil
+			}
+		default:
+			return nil
+		}
+	}
+	if len(ws) == 0 {
+		return nil
+	}
+	// order: every write precedes the read, writes totally ordered by dominance / position
+	pos := func(in ssa.Instruction) int {
+		for i, x := range in.Block().Instrs {
+			if x == in {
+				return i
+			}
+		}
+		return -1
+	}
+	before := func(x, y ssa.Instruction) bool {
+		if x.Block() == y.Block() {
+			return pos(x) < pos(y)
+		}
+		return x.Block().Dominates(y.Block())
+	}
+	for _, w := range ws {
+		if !before(w.call, c) {
+			return nil
+		}
+		// not in a loop
+		if blockReaches(w.call.Block(), w.call.Block()) {
+			return nil
+		}
+	}
+	sort.SliceStable(ws, func(i, j int) bool { return before(ws[i].call, ws[j].call) })
+	for i := 0; i+1 < len(ws); i++ {
+		if !before(ws[i].call, ws[i+1].call) {
+			return nil
+		}
+	}
+	var out []ssa.Value
+	for _, w := range ws {
+		out = append(out, w.v)
+	}
+	return out
+}
+
+// componentType: the type of component idx of fn's result (convention of retComponent).
+func componentType(fn *ssa.Function, idx int) types.Type {
+	res := fn.Signature.Results()
+	if idx >= 0 {
+		if idx >= res.Len() {
+			return nil
+		}
+		return res.At(idx).Type()
+	}
+	if res.Len() != 1 {
+		return nil
+	}
+	st, ok := res.At(0).Type().Underlying().(*types.Struct)
+	if !ok || -idx-1 >= st.NumFields() {
+		return nil
+	}
+	return st.Field(-idx - 1).Type()
 }
